@@ -5,7 +5,7 @@ from . import inputs
 PROP = 'C16'
 LEVEL = 'fault_enumeration'
 UBSAN_JUDGED = True
-WALL_CAP = {'quick': 240, 'thorough': 3000}
+WALL_CAP = {'quick': 600, 'thorough': 3600}
 RULE = ('cases = (stored file, cut offset k, fault mode in {eof: reader sees EOF at k; eio: stream goes bad at k; '
         'crash: file physically k bytes long; torn: first k bytes of the real write trace, size table not yet patched}); '
         'every k for files up to the exhaustive limit, otherwise +-16 bytes around every block boundary, a seeded stride and seeded '
